@@ -18,6 +18,13 @@ NA = {
  "C20":"integer square root: pure function of x",
 }
 CLAIMED = {
+ "C12": dict(
+   category="exploration",
+   text="Safety invariant over reachable states: a pool of NonZero/Odd values (carriers Limb, Uint<1>, Uint<2>, Uint<4>, Int<2>, BoxedUint) is driven by seeded histories of <= 32 events — every public producer (enumerated once per carrier/wrapper/producer triple, then sampled), selection/assign/swap between members, conversions, random generation from fault-injected RNG tapes (zero prefixes, all-even words, all-zero, short tapes, failing calls), deserialization of hand-built and faulted records through the simulator's serde format / bincode / json, and consumers. After every event every pool member must satisfy value != 0 / value odd; byte-order producers must decode in the stated order; invalid arguments must be refused (or panic where documented).",
+   design_ref="DESIGN.md section 4, C12",
+   note="Trusted: validity read through as_ref().to_words(); the stated-order decoder in the harness. Zeroize on a wrapper and the placeholder inside a none CtOption are deliberately not producers (DESIGN C12). For the non-seam producers the simulator adds nothing over calling them; they are in the workload because selection, conversion, persist/restore and consumers act on whatever the pool holds.",
+   technique="deterministic simulation: invariant monitor over a pool of values under seeded operation histories with RNG-tape and deserializer fault injection",
+ ),
  "C16": dict(
    category="exploration",
    text="SCOPED to the surfaces that meet a device: serde encodings of Limb, Uint (1..8,16,32 limbs), Wrapping, Checked, NonZero, Odd, ConstMontyForm through a simulator-owned serde format (binary and human-readable, three visitor delivery styles, serializer/deserializer error injection, type confusion, payload faults incl. every truncation offset), bincode and serde_json; Display/LowerHex/UpperHex/Binary/Debug through a text sink of every capacity 0..len; and the Encoding::{to,from}_{le,be}_bytes / from_{le,be}_slice routes that feed them, checked positionally. Oracles: round trip; a faulted record is rejected or re-serializes to itself; size; positional expansion; sink content is a prefix of the full text and a refusal is reported as Err.",
